@@ -225,6 +225,50 @@ def r8_rendered_crate_names(ctx):
     ctx.floor('C01.R8', 'callable path renderers', n, 5)
 
 
+def r9_total_type_walkers(ctx):
+    from ..govern import controlling_switches
+    ctx.rule('C01.R9', 'P1: the in-place walkers of rustdoc_ir::Type (methods taking `&mut self`, returning nothing and calling themselves on nested '
+             'types: set_implicit_lifetimes, rename_lifetime_parameters, ..) reach every nested type: a recursive call may depend only on '
+             'the shape of the value (which variant, which generic-argument kind, whether an optional child is present, the loop over '
+             'children), never on another property of the node such as the kind of its lifetime. A walker that stops below a node whose '
+             'own lifetime it rewrote leaves `\'_` in generated struct fields, which does not compile.')
+    STRUCTURAL = ('rustdoc_ir::Type', 'core::option::Option', 'rustdoc_ir::generic_argument::GenericArgument')
+    n_fn, n_sites = 0, 0
+    for b in ctx.fb.bodies('rustdoc_ir'):
+        if b.is_promoted or b.nid != b.nroot or '{impl rustdoc_ir::Type}' not in b.nid:
+            continue
+        if b.raw['argc'] < 1 or not b.locals[1].startswith('&mut rustdoc_ir::Type') or b.locals[0] != '()':
+            continue
+        bodies = ctx.fb.bodies_of_item('rustdoc_ir', b.nroot)
+        if not any(strip_generics(callee(t) or '') == b.nroot for x in bodies for _, t in x.calls()):
+            continue
+        n_fn += 1
+        defs = Defs(b)
+        k_site = 0
+        for bb, t in sorted(b.calls(), key=lambda x: x[0]):
+            if strip_generics(callee(t) or '') != b.nroot:
+                continue
+            n_sites += 1
+            k_site += 1
+            bad = []
+            for sb, st in controlling_switches(b, bb):
+                if 'enum' in st:
+                    if strip_generics(st['enum']) in STRUCTURAL:
+                        continue
+                    bad.append('match on %s at %s' % (strip_generics(st['enum']).split('::')[-1], b.loc(sb)))
+                else:
+                    pl = op_place(st['d'])
+                    sl, _ = backward_slice(b, pl['l'], defs) if pl is not None else ([], set())
+                    cs = {c.split('::')[-1] for c, _, _ in slice_calls(sl)}
+                    if cs & {'next', 'is_some', 'is_none', 'is_empty', 'len'} and not (cs - {'next', 'is_some', 'is_none', 'is_empty', 'len', 'iter', 'iter_mut', 'into_iter', 'as_mut', 'as_ref', 'deref', 'deref_mut'}):
+                        continue
+                    bad.append('test on %s at %s' % (sorted(cs) or 'a field', b.loc(sb)))
+            ctx.ob('C01.R9', 'recursion-unconditional|%s|#%d' % (b.nid.split('::')[-1], k_site), not bad, b.loc(bb, t),
+                   'the recursive call of %s is governed by shape tests only%s' % (b.nid.split('::')[-1], '' if not bad else ' — NO: it also depends on ' + '; '.join(bad)))
+    ctx.floor('C01.R9', 'in-place walkers of Type', n_fn, 2)
+    ctx.floor('C01.R9', 'recursive call sites in them', n_sites, 6)
+
+
 def check(ctx):
     r1_typestate(ctx)
     r2_pipeline(ctx)
@@ -232,3 +276,4 @@ def check(ctx):
     r6_reference_inputs(ctx)
     r7_mut_binding(ctx)
     r8_rendered_crate_names(ctx)
+    r9_total_type_walkers(ctx)
